@@ -6,7 +6,7 @@ import re
 from ..absint import Interp, Obj, TOP
 from ..astutil import calls, kwarg, local_defs
 from ..facts import Facts
-from ..model import AnalysisError, src, walk_own
+from ..model import AnalysisError, LostAnchor, src, walk_own
 from ..pipeline import ANNOTATIONS, Pipeline
 
 OPTIONS_CLS = 'python_minifier.transforms.remove_annotations_options.RemoveAnnotationsOptions'
@@ -112,50 +112,56 @@ def run(model, rep):
     rep.floor('C01.DEF', 16)
 
     # ---------------- PIPE: minify() itself is evaluated with every stage replaced by a recorder (pmstatic.apirun); no shape of minify() is assumed
-    from .. import apirun
-    from ..callgraph import CallGraph, Effects
-    options = [p for p in mi.params if p not in ('source', 'filename', 'preserve_locals', 'preserve_globals')]
-    all_on = {p: True for p in options}
-    runs = {'every option on': apirun.run(model, kwargs=all_on, fresh_modules=True), 'default options': apirun.run(model, kwargs={}, fresh_modules=True),
-            'every option off': apirun.run(model, kwargs={p: False for p in options}, fresh_modules=True)}
-    callables = apirun.imported_callables(model)
-    transformers = [n for n, (k, _q) in callables.items() if k == 'stage']
-    order = [('add_parent', ['<parse>']), ('add_namespace', ['<parse>', 'add_parent']), ('bind_names', ['add_parent', 'add_namespace']), ('resolve_names', ['bind_names']),
-             ('allow_rename_locals', ['resolve_names']), ('allow_rename_globals', ['resolve_names']), ('rename', ['allow_rename_locals', 'allow_rename_globals', 'resolve_names']),
-             ('unparse', ['rename']), ('rename_literals', ['resolve_names', 'allow_rename_locals', 'allow_rename_globals']), ('remove_no_arg_exception_call', ['resolve_names']),
-             ('remove_posargs', ['rename'])]
-    for label, r in sorted(runs.items()):
-        if r.outcome[0] != 'return':
-            raise AnalysisError('UNDECIDED: minify() with %s -> %s' % (label, r.outcome))
-        seq = [('<parse>' if t[0] == 'parse' else t[1]) for t in r.trace if t[0] in ('parse', 'stage', 'call')]
-        pos = {}
-        for i_, n_ in enumerate(seq):
-            pos.setdefault(n_, i_)
-        for name, preds in order:
-            if name not in pos:
-                if name in ('add_parent', 'add_namespace', 'bind_names', 'resolve_names', 'allow_rename_locals', 'allow_rename_globals', 'rename', 'unparse'):
-                    rep.violation('C01.PIPE', mi.loc(), '%s: %s' % (label, name), 'stage %s does not run' % name, key='C01.PIPE|%s|missing|%s' % (label, name))
-                continue
-            for p_ in preds:
-                ok = p_ in pos and pos[p_] < pos[name]
-                rep.check(ok, 'C01.PIPE', mi.loc(), '%s: %s after %s' % (label, name, p_), 'in this order', '%s runs before %s has completed' % (name, p_), key='C01.PIPE|%s|%s<%s' % (label, p_, name))
-        for t_ in transformers:
-            if t_ in pos:
-                ok = pos.get('add_parent', 10 ** 6) < pos[t_] and pos.get('add_namespace', 10 ** 6) < pos[t_]
-                rep.check(ok, 'C01.PIPE', mi.loc(), '%s: %s after add_parent, add_namespace' % (label, t_), 'transforms read parent / namespace links', 'transform %s runs before the tree is annotated with parents and namespaces' % t_,
-                          key='C01.PIPE|%s|pre|%s' % (label, t_))
-                late = 'bind_names' in pos and pos[t_] > pos['bind_names']
-                rep.check(not late, 'C01.PIPE', mi.loc(), '%s: %s before bind_names' % (label, t_), 'no tree transform after names were bound',
-                          'the tree transform %s runs after names were bound: nodes it creates or removes are unknown to the binding tables' % t_, key='C01.PIPE|%s|late|%s' % (label, t_))
-        if 'rename_literals' in pos:
-            rep.check(pos['rename_literals'] < pos.get('rename', -1), 'C01.PIPE', mi.loc(), '%s: rename_literals before rename' % label, 'hoisted bindings are named by the renamer',
-                      'literals are hoisted after names have been assigned', key='C01.PIPE|%s|rename_literals<rename' % label)
-        stale = [t[1] for t in r.trace if t[0] == 'stale']
-        rep.check(not stale, 'C01.PIPE', mi.loc(), '%s: every stage receives the tree the previous stage returned' % label, 'module threaded through',
-                  'stage(s) %s are applied to a tree an earlier transform has already replaced: the result of that transform is dropped' % stale, key='C01.PIPE|%s|thread' % label)
-        rep.check(r.outcome[1] == 'MINIFIED', 'C01.PIPE', mi.loc(), '%s: minify returns %r' % (label, r.outcome[1]), 'the text unparse() produced (no shebang in the source)',
-                  'minify returns something other than the printed module: %r' % (r.outcome[1],), key='C01.PIPE|%s|return' % label)
-    rep.floor('C01.PIPE', 40)
+    def pipe():
+        from .. import apirun
+        from ..callgraph import CallGraph, Effects
+        options = [p for p in mi.params if p not in ('source', 'filename', 'preserve_locals', 'preserve_globals')]
+        all_on = {p: True for p in options}
+        runs = {'every option on': apirun.run(model, kwargs=all_on, fresh_modules=True), 'default options': apirun.run(model, kwargs={}, fresh_modules=True),
+                'every option off': apirun.run(model, kwargs={p: False for p in options}, fresh_modules=True)}
+        callables = apirun.imported_callables(model)
+        transformers = [n for n, (k, _q) in callables.items() if k == 'stage']
+        order = [('add_parent', ['<parse>']), ('add_namespace', ['<parse>', 'add_parent']), ('bind_names', ['add_parent', 'add_namespace']), ('resolve_names', ['bind_names']),
+                 ('allow_rename_locals', ['resolve_names']), ('allow_rename_globals', ['resolve_names']), ('rename', ['allow_rename_locals', 'allow_rename_globals', 'resolve_names']),
+                 ('unparse', ['rename']), ('rename_literals', ['resolve_names', 'allow_rename_locals', 'allow_rename_globals']), ('remove_no_arg_exception_call', ['resolve_names']),
+                 ('remove_posargs', ['rename'])]
+        for label, r in sorted(runs.items()):
+            if r.outcome[0] != 'return':
+                raise AnalysisError('UNDECIDED: minify() with %s -> %s' % (label, r.outcome))
+            seq = [('<parse>' if t[0] == 'parse' else t[1]) for t in r.trace if t[0] in ('parse', 'stage', 'call')]
+            pos = {}
+            for i_, n_ in enumerate(seq):
+                pos.setdefault(n_, i_)
+            for name, preds in order:
+                if name not in pos:
+                    # a stage that is not observed is no violation by itself (skipping work nobody asked for is the maintainer's right, and what the
+                    # options then do is decided end to end by C01.ALL): with every option on it means the stage names this rule is written against
+                    # are gone; otherwise there is simply nothing to order in this configuration
+                    if label == 'every option on' and name in ('add_parent', 'add_namespace', 'bind_names', 'resolve_names', 'allow_rename_locals', 'allow_rename_globals', 'rename', 'unparse'):
+                        raise LostAnchor('no call of a stage named %s is observed when minify() runs with every option on' % name)
+                    rep.ok('C01.PIPE', mi.loc(), '%s: %s is not run' % (label, name), 'nothing to order', key='C01.PIPE|%s|absent|%s' % (label, name))
+                    continue
+                for p_ in preds:
+                    ok = p_ in pos and pos[p_] < pos[name]
+                    rep.check(ok, 'C01.PIPE', mi.loc(), '%s: %s after %s' % (label, name, p_), 'in this order', '%s runs before %s has completed' % (name, p_), key='C01.PIPE|%s|%s<%s' % (label, p_, name))
+            for t_ in transformers:
+                if t_ in pos:
+                    ok = pos.get('add_parent', 10 ** 6) < pos[t_] and pos.get('add_namespace', 10 ** 6) < pos[t_]
+                    rep.check(ok, 'C01.PIPE', mi.loc(), '%s: %s after add_parent, add_namespace' % (label, t_), 'transforms read parent / namespace links', 'transform %s runs before the tree is annotated with parents and namespaces' % t_,
+                              key='C01.PIPE|%s|pre|%s' % (label, t_))
+                    late = 'bind_names' in pos and pos[t_] > pos['bind_names']
+                    rep.check(not late, 'C01.PIPE', mi.loc(), '%s: %s before bind_names' % (label, t_), 'no tree transform after names were bound',
+                              'the tree transform %s runs after names were bound: nodes it creates or removes are unknown to the binding tables' % t_, key='C01.PIPE|%s|late|%s' % (label, t_))
+            if 'rename_literals' in pos:
+                rep.check(pos['rename_literals'] < pos.get('rename', -1), 'C01.PIPE', mi.loc(), '%s: rename_literals before rename' % label, 'hoisted bindings are named by the renamer',
+                          'literals are hoisted after names have been assigned', key='C01.PIPE|%s|rename_literals<rename' % label)
+            stale = [t[1] for t in r.trace if t[0] == 'stale']
+            rep.check(not stale, 'C01.PIPE', mi.loc(), '%s: every stage receives the tree the previous stage returned' % label, 'module threaded through',
+                      'stage(s) %s are applied to a tree an earlier transform has already replaced: the result of that transform is dropped' % stale, key='C01.PIPE|%s|thread' % label)
+            rep.check(r.outcome[1] == 'MINIFIED', 'C01.PIPE', mi.loc(), '%s: minify returns %r' % (label, r.outcome[1]), 'the text unparse() produced (no shebang in the source)',
+                      'minify returns something other than the printed module: %r' % (r.outcome[1],), key='C01.PIPE|%s|return' % label)
+        rep.floor('C01.PIPE', 40)
+    rep.optional(['C01.PIPE'], ['C01.ALL'], pipe)
 
     # ---------------- ANNOT typestate, observed: the real minify() with every option on, every stage wrapped (it records its start and then runs the
     # repository's own code); every read / hasattr probe / write of an attribute hung on a tree node that is not a field of the grammar is recorded
